@@ -26,7 +26,7 @@ def post_stage(stage, res, verdict):
 
 RULE = ("case = one solver object driven through a random history of length 3-5 (quick) / 3-8 (thorough): first setup+solve, then "
         "re-solve without setup, re-solve after changing solve-only options (maxIterations, tolerances, norm, cycle, smoothing steps, "
-        "FMG cycle/iterations), or change of setup options (divideBy2, nr_exp, extrapolation 0..3, FMG, strategy, maxLevels, DirBC) "
+        "FMG cycle/iterations), or change of setup options (divideBy2, nr_exp, R0, extrapolation 0..3, FMG, strategy, maxLevels, DirBC; only the setters of changed options are called) "
         "followed by setup+solve; 20% follow the refinement loop of convergence_order.cpp; after every solve the tuple is compared "
         "with a fresh object; signature = (extrapolation sequence, FMG, strategy, transition kinds); non-trivial = >=1 re-solve and >=1 re-setup")
 ASSUMPTIONS = ["1 thread, same binary: fresh and reused objects must agree bit for bit", "options consumed by setup() are always followed by setup() before solve()"]
